@@ -544,8 +544,11 @@ const GCNF_DOCS: &[&[u8]] = &[
     b"p gcnf 32767 1 1\n{1} 32767 -32767 0\n",
     b"{123456789} 1 0\n{1234567} 2 0\n{12345678} 3 0\n",
 ];
-const SATLOG_TOKENS: &[&[u8]] = &[b"s", b"SATISFIABLE", b"UNSATISFIABLE", b"UNKNOWN", b"v", b"1", b"-2", b"3", b"0", b"c", b"c x", b"o 5", b"\n", b"\n", b" ", b"x", b"2147483648", b"s SATISFIABLE\n", b"v 1 -2 0\n"];
+const SATLOG_TOKENS: &[&[u8]] = &[b"-9223372036854775808", b"9223372036854775807", b"-9223372036854775809", b"9223372036854775808", b"-2147483648", b"-2147483647", b"2147483647", b"v -9223372036854775808 0\n", b"s", b"SATISFIABLE", b"UNSATISFIABLE", b"UNKNOWN", b"v", b"1", b"-2", b"3", b"0", b"c", b"c x", b"o 5", b"\n", b"\n", b" ", b"x", b"2147483648", b"s SATISFIABLE\n", b"v 1 -2 0\n"];
 const SATLOG_DOCS: &[&[u8]] = &[
+    b"s SATISFIABLE\nv 1 -9223372036854775808 0\n",
+    b"s SATISFIABLE\nv 2147483647 -2147483647 0\n",
+    b"s SATISFIABLE\nv 2147483648 0\n",
     b"c solver\ns SATISFIABLE\nv 1 -2\nv 3 0\n",
     b"s UNSATISFIABLE\n",
     b"s UNKNOWN\n",
